@@ -146,9 +146,9 @@ func histOps(reduced bool) []HOp {
 		add(HOp{Name: dn + ".SetUint64(max)", Dst: d, Do: func(z *Dec, s []*Dec) { z.SetUint64(math.MaxUint64) }, PrecRule: prConst, PrecConst: 34, CopiesAttrsFrom: -1, ModeSet: -1})
 		add(HOp{Name: dn + ".SetUint64(10^19)", Dst: d, Do: func(z *Dec, s []*Dec) { z.SetUint64(BW) }, PrecRule: prConst, PrecConst: 34, CopiesAttrsFrom: -1, ModeSet: -1})
 		add(HOp{Name: dn + ".SetUint64(10^19-1)", Dst: d, Do: func(z *Dec, s []*Dec) { z.SetUint64(BW - 1) }, PrecRule: prConst, PrecConst: 34, CopiesAttrsFrom: -1, ModeSet: -1})
-		strs := []string{"1.5", "-0", "1e-3", "0x1p-1", "Inf", "12345678901234567890123456789012345678901234567890", "-9.99e5"}
+		strs := []string{"1.5", "-0", "1e-3", "0x1p-1", "Inf", "12345678901234567890123456789012345678901234567890", "-9.99e5", "0.0000000000000000000", "0.00000000000000000001234567890123456789", "00000000000000000001000000000000000000"}
 		if reduced {
-			strs = []string{"1.5", "-0", "Inf", "12345678901234567890123456789012345678901234567890"}
+			strs = []string{"1.5", "-0", "Inf", "12345678901234567890123456789012345678901234567890", "0.0000000000000000000", "0.00000000000000000001234567890123456789"}
 		}
 		for _, sv := range strs {
 			sv := sv
@@ -388,8 +388,20 @@ func getHistSpace(reduced bool, maxLevel int) *histSpace {
 		var next []hstate
 		for _, st := range hs.levels[L-1] {
 			for oi := range hs.ops {
+				progressNote.Store(pathString(hs.ops, st) + " => " + hs.ops[oi].Name)
 				vs := buildHist(hs.ops, st)
 				applyOp(&hs.ops[oi], vs)
+				// a state that violates the representation invariant is reported by the judged layer that
+				// executes this same transition; it is not expanded (its futures are meaningless and may not terminate)
+				malformed := false
+				for _, v := range vs {
+					if Canonical(Observe(v)) != "" {
+						malformed = true
+					}
+				}
+				if malformed {
+					continue
+				}
 				key := stateKey(vs)
 				if !hs.seen[key] {
 					hs.seen[key] = true
@@ -707,7 +719,13 @@ func init() {
 		Rule:        "a case is (operation, aliasing partition, receiver pre-state, operands) or a history transition; oracle: the same operation executed with a fresh receiver of equal precision/mode and deep-copied distinct operands must give the identical observation; every case is non-trivial",
 		Assumptions: []string{"differential oracle + exact model on the product layers", "history depth 3 (E2) from 5 seed states"},
 		Layers: func(tier string) []Layer {
-			return append(aliasLayers(tier), histLayers(judgeDiff, tier, "aliasing/dirty-receiver differential (C10)")...)
+			// setters on every receiver pre-state: the result must equal the model's (and hence the fresh receiver's)
+			setterPres = nil
+			for p := 0; p < numPre; p++ {
+				setterPres = append(setterPres, p)
+			}
+			ls := append(aliasLayers(tier), setterLayers(judgeValue, tier)...)
+			return append(ls, histLayers(judgeDiff, tier, "aliasing/dirty-receiver differential (C10)")...)
 		},
 		Stats: histStats("C10"),
 	})
